@@ -94,6 +94,11 @@ func (vc *FuncVC) callCommon(st *State, c *ssa.CallCommon, args []Val, resT type
 		return vc.callStatic(st, v, args, nil, resT)
 	}
 	// dynamic function value
+	if fnv.Clo == nil {
+		if fn, binds, ok := vc.staticClosure(st, c.Value); ok {
+			fnv.Clo = &Closure{Fn: fn, Binds: binds}
+		}
+	}
 	if fnv.Clo != nil {
 		fn := fnv.Clo.Fn.(*ssa.Function)
 		return vc.callStatic(st, fn, args, fnv.Clo.Binds, resT)
@@ -1047,4 +1052,87 @@ func (vc *FuncVC) touchesShared(con *Contract) bool {
 		}
 	}
 	return false
+}
+
+// staticClosure resolves a call through a func-typed local variable that lives in a cell (captured by closures)
+// when the cell has exactly one store in the whole function and that store writes a closure literal.
+func (vc *FuncVC) staticClosure(st *State, v ssa.Value) (*ssa.Function, []Val, bool) {
+	ld, ok := v.(*ssa.UnOp)
+	if !ok {
+		return nil, nil, false
+	}
+	var cell ssa.Value = ld.X
+	inParent := false
+	if fv, ok := cell.(*ssa.FreeVar); ok {
+		// the cell belongs to the enclosing function: find the binding in the MakeClosure that created us
+		parent := fv.Parent().Parent()
+		if parent == nil {
+			return nil, nil, false
+		}
+		idx := -1
+		for i, f := range fv.Parent().FreeVars {
+			if f == fv {
+				idx = i
+			}
+		}
+		found := false
+		for _, b := range parent.Blocks {
+			for _, in := range b.Instrs {
+				if mc, ok := in.(*ssa.MakeClosure); ok && mc.Fn == fv.Parent() && idx >= 0 && idx < len(mc.Bindings) {
+					cell = mc.Bindings[idx]
+					found = true
+				}
+			}
+		}
+		if !found {
+			return nil, nil, false
+		}
+		inParent = true
+	}
+	al, ok := cell.(*ssa.Alloc)
+	if !ok || al.Referrers() == nil {
+		return nil, nil, false
+	}
+	var mc *ssa.MakeClosure
+	var plain *ssa.Function
+	stores := 0
+	for _, r := range *al.Referrers() {
+		if s, ok := r.(*ssa.Store); ok && s.Addr == al {
+			stores++
+			if m, ok := s.Val.(*ssa.MakeClosure); ok {
+				mc = m
+			}
+			if f, ok := s.Val.(*ssa.Function); ok {
+				plain = f
+			}
+		}
+	}
+	if stores == 1 && plain != nil {
+		return plain, nil, true
+	}
+	if stores != 1 || mc == nil {
+		return nil, nil, false
+	}
+	fn := mc.Fn.(*ssa.Function)
+	var binds []Val
+	if !inParent {
+		for _, b := range mc.Bindings {
+			if _, ok := st.fr.regs[b]; !ok {
+				if _, isConst := b.(*ssa.Const); !isConst {
+					return nil, nil, false
+				}
+			}
+			binds = append(binds, st.val(b))
+		}
+	} else if len(mc.Bindings) > 0 {
+		// bindings live in the parent's frame: unknown here; give fresh values of the right types
+		for _, b := range mc.Bindings {
+			nv := st.freshVal(b.Type(), "bind")
+			if pt, ok := b.Type().Underlying().(*types.Pointer); ok {
+				nv = st.ptrTo(pt.Elem(), nv.T)
+			}
+			binds = append(binds, nv)
+		}
+	}
+	return fn, binds, true
 }
